@@ -31,7 +31,7 @@ LEVEL_TEXT = (
     "(every assignment of labelled stubs to slots occurs exactly once), every vertex-level arrangement of a stub "
     "list has the same multiplicity in it, the joint space is the product over topologies (independence), and "
     "relabelling vertices permutes the space. The checker c03_check (flat and complete histogram over the "
-    "placement space) is proved sound and the model's histogram is proved to satisfy it's specification for all "
+    "placement space) is proved sound and the model's histogram is proved to satisfy that specification for all "
     "inputs; the real generators are tied to this by exact enumeration of every shuffle outcome for all small jds "
     "(<=4 stubs per topology, <=2 topologies) and by the shuffle protocol check (exactly one random.shuffle per "
     "topology on the full stub list, no other randomness).")
